@@ -291,9 +291,33 @@ func newRaceReports() []string {
 	return out
 }
 
-// raceClass names a report by the innermost risor frames of its two accesses.
+// noteForeignRace counts a race report that is not risor's. A race inside the
+// harness is a harness defect: it is counted separately and its text is kept
+// in the run's sample so that it gets fixed rather than overlooked.
+func noteForeignRace(rc *fw.RunCtx, cls, rep string) {
+	if cls == "race/harness" {
+		rc.Hit("race_reports_in_harness")
+		if goos.Getenv("VERIF_VERBOSE") != "" {
+			fmt.Printf("HARNESS-RACE %s\n", rep)
+		}
+		return
+	}
+	rc.Hit("race_reports_outside_risor")
+	if goos.Getenv("VERIF_VERBOSE") != "" {
+		fmt.Printf("OUTSIDE-RACE %s\n", rep)
+	}
+}
+
+// raceClass names a report by the frames that decide its two accesses. For
+// each access the stack is walked from the innermost frame outwards, past the
+// Go runtime and standard library; the first frame of the risor module family
+// decides: a frame of risor proper makes it an access by risor code, a frame of
+// the harness (risor/verif, internal/verifhook) - e.g. a host builtin the
+// script called - makes it the harness's own access. Only a report in which
+// every access is risor's is a risor race.
 func raceClass(report string) (class string, inRisor bool) {
 	var tops []string
+	harness := false
 	lines := strings.Split(report, "\n")
 	for i, l := range lines {
 		if strings.Contains(l, " by goroutine ") || strings.Contains(l, " by main goroutine") {
@@ -304,16 +328,24 @@ func raceClass(report string) (class string, inRisor bool) {
 				}
 				if m := raceFrameRe.FindStringSubmatch(fl); m != nil {
 					fn := m[1]
-					if strings.Contains(fn, "github.com/risor-io/risor/") && !strings.Contains(fn, "risor/verif/") && !strings.Contains(fn, "internal/verifhook") {
-						top = strings.TrimPrefix(fn, "github.com/risor-io/risor/")
-						break
+					if !strings.Contains(fn, "github.com/risor-io/risor/") {
+						continue
 					}
+					if strings.Contains(fn, "risor/verif/") || strings.Contains(fn, "internal/verifhook") {
+						harness = true
+					} else {
+						top = strings.TrimPrefix(fn, "github.com/risor-io/risor/")
+					}
+					break
 				}
 			}
 			if top != "" {
 				tops = append(tops, top)
 			}
 		}
+	}
+	if harness {
+		return "race/harness", false
 	}
 	if len(tops) == 0 {
 		return "race/outside-risor", false
@@ -589,7 +621,7 @@ func runC09(rc *fw.RunCtx) {
 	for _, rep := range newRaceReports() {
 		cls, inRisor := raceClass(rep)
 		if !inRisor {
-			rc.Hit("race_reports_outside_risor")
+			noteForeignRace(rc, cls, rep)
 			continue
 		}
 		short := rep
